@@ -39,6 +39,24 @@ func (l *filterRuleList) matches(name string) bool {
 	return false
 }
 
+// ParseFilterRules builds the rule list from rules given on the command line
+// (--exclude, --include, --filter) for the case where the sender runs on the
+// client side and hence never receives them over the wire.
+func ParseFilterRules(rules []string) (*filterRuleList, error) {
+	var l filterRuleList
+	for _, line := range rules {
+		fr, err := parseFilter(line)
+		if err != nil {
+			return nil, err
+		}
+		l.addRule(fr)
+		if fr.flag&filtruleWild != 0 {
+			return nil, fmt.Errorf("wildcard filter rules not yet implemented: %q", line)
+		}
+	}
+	return &l, nil
+}
+
 // exclude.c:recv_filter_list
 func RecvFilterList(c *rsyncwire.Conn) (*filterRuleList, error) {
 	var l filterRuleList
